@@ -130,7 +130,7 @@ pub fn run(args: &Args, r: &mut Report) {
         "c02-twin-run-equivalent",
         "c02-forged-position-reached",
     ]);
-    let n_base = args.budget(48, 1_000);
+    let n_base = args.budget(128, 1_000);
     let mut runs = 0u64;
     for i in 0..n_base {
         if args.skip(i) {
